@@ -127,3 +127,10 @@ pub fn panic_msg(e: Box<dyn std::any::Any + Send>) -> String {
         "?".into()
     }
 }
+
+/// first line of an error message (storage errors carry a backtrace)
+pub fn errstr<E: std::fmt::Display>(e: E) -> String {
+    let s = e.to_string();
+    let l = s.lines().next().unwrap_or("").to_string();
+    l.chars().take(160).collect()
+}
